@@ -32,9 +32,10 @@ P("C01", "proof", kani={"timeout": "600s", "compile_clause": True}, rac=["emit"]
 P("C02", "proof", kani={"timeout": "600s", "compile_clause": True},
   unbounded="the ten wrapper operators; placeholder builder; replace preserves operator and restores all operands",
   bounded="nesting programs (Kani)")
-P("C07", "proof",
+P("C07", "proof", rac=["spawn_agree"],
   unbounded="alias part: the 12 Config literals equal the documented triples, so every alias has its target's Config for every input",
-  not_decided="runtime agreement of spawn variants under thread/task schedules")
+  bounded="spawn/plain agreement: 14 programs x 3 inputs x 3 calling-thread contexts (main / named / unnamed) executed natively under all 12 macros, results compared within each agreement class (one schedule per run, repeated)",
+  not_decided="runtime agreement of spawn variants under ALL thread/task schedules (no verifier here models std::thread / tokio)")
 
 NOT_APPLICABLE = {
     "C08": "needs std::thread semantics (n live threads, run-time names): Kani has no thread support, Verus has no std::thread model, and the name is computed by code that exists only inside a quote! string",
